@@ -249,21 +249,27 @@ impl Property for C12 {
         "one run = a world-C history without punctures: 1..3 independent servers (own keys), 2..8 clients issuing several requests each for a small pool of inputs and tags, transport with dup/reorder/delay (a duplicated request is simply a second evaluation). History oracle: (key, tag, input) -> finalised output is a function across all clients, requests and blindings and injective across triples; the unblinded input point (obtained with the library's own unblind from the client's blinded request) is a function of the input, injective, and differs from the blinded request; each unblinded result equals the server's evaluation of that point; all blinded points in the history are pairwise distinct. Agreement with an independent hash-to-group / finalisation is recorded as a probe only (a change of a domain-separation label would not break the property). non-trivial = a triple was evaluated at least twice with different blindings and >= 2 distinct triples were seen; states = (servers, tags, tag, input length) cells"
     }
     fn runs(&self, thorough: bool) -> u64 {
-        if thorough { 300_000 } else { 6_000 }
+        if thorough { 200_000 } else { 3_000 }
     }
     fn run(&self, ctx: &mut Ctx) -> Result<(), Violation> {
         let tags = draw_tags(ctx, 4);
+        // every 10th run is a LONG history (hundreds of blindings / evaluations in one process):
+        // pooled, cached or cyclic client/server state shows only there
+        let long = ctx.ch.chance(1, 20);
+        if long {
+            ctx.stats.probe("long_histories");
+        }
         let cfg = CCfg {
             n_servers: 1 + ctx.ch.index(3),
-            n_clients: 2 + ctx.ch.index(if ctx.thorough { 7 } else { 4 }),
+            n_clients: if long { 24 + ctx.ch.index(if ctx.thorough { 150 } else { 24 }) } else { 2 + ctx.ch.index(if ctx.thorough { 7 } else { 4 }) },
             tags,
             epoch_len_us: 1_000_000,
             rotate: false,
             replicate: ctx.ch.chance(1, 3),
             crash: false,
             ops: false,
-            verifiable: ctx.ch.chance(1, 2),
-            requests_per_client: 2 + ctx.ch.index(4),
+            verifiable: ctx.ch.chance(1, 2) && !long,
+            requests_per_client: if long { 6 + ctx.ch.index(4) } else { 2 + ctx.ch.index(4) },
             inputs: inputs(ctx),
             horizon_us: 10_000_000,
         };
